@@ -135,6 +135,34 @@ def main():
         if i % 131 == 0:
             c.sample({'case': l, 'changed_elements': r.get('changed'), 'recorded_accesses': r.get('n_accesses')})
 
+    # ---------------- parameters applied repeatedly to / edited under a long-lived model object: every Run must
+    # equal a fresh object given the current parameters (dimensioned models first, then all the others)
+    dimensioned = [m for m in models if cat[m].get('dimensions')]
+    pseq_lines = []
+    for rep in range(4 if quick else 20):
+        for m in dimensioned:
+            pseq_lines.append('PARAMSEQ %s %d %d %d %d %s' % (m, [3, 4, 5][rep % 3], [2, 3, 1][rep % 3], 6, rng.randrange(1 << 30), ['go', 'c'][rep % 2]))
+    for k, m in enumerate(models):
+        if m not in dimensioned:
+            for rep in range(1 if quick else 4):
+                pseq_lines.append('PARAMSEQ %s %d %d %d %d %s' % (m, [3, 4][k % 2], [2, 1, 3][(k + rep) % 3], 6, rng.randrange(1 << 30), ['go', 'c'][(k + rep) % 2]))
+    pseq_steps = 0
+    for (l, r, raw) in run_cases(pseq_lines):
+        c.count(l, nontrivial=True)
+        if r is None:
+            # the process died: do the FRESH reference objects alone survive these parameters?
+            ref = run_lines(CELLRUN, [l + ' ref'], env=GOENV)[0]
+            if not ref.startswith('{'):
+                n_skipped += 1      # the kernel panics on this draw even on fresh objects
+                continue
+            c.violation('paramseq_%s.json' % l.split()[1], {'kind': 'a long-lived model object panics where fresh objects given the same parameters run normally',
+                                                            'case_line': l, 'impl': raw, 'replay': 'echo "%s" | harness/bin/cellrun' % l})
+            continue
+        pseq_steps += (r.get('extra') or {}).get('steps', 0)
+        if not r['ok']:
+            c.violation('paramseq_%s.json' % l.split()[1], {'kind': 'Run on a long-lived model object (parameters re-applied / edited in place) differs from a fresh object given the current parameters',
+                                                            'case_line': l, 'fails': r['fails'], 'replay': 'echo "%s" | harness/bin/cellrun' % l})
+
     # ---------------- InitialiseStates on a long-lived model object (every call: a NEW array equal to a fresh object's)
     seq_lines = ['INITSEQ %s %d %d %d %d' % (m, [2, 3, 5][k % 3], [1, 2][k % 2], 6, rng.randrange(1 << 30))
                  for k, m in enumerate(models) for _ in range(1 if quick else 6)]
@@ -173,13 +201,13 @@ def main():
             c.violation('init_%s.json' % r['model'], {'kind': 'initialise-states-row-differs', 'fails': r['fails'], 'case_line': l,
                                                       'replay': 'echo "%s" | harness/bin/cellrun' % l})
     c.cov['rule'] = ('every model of sim.Catalog x (N,nSets,nIn) in %d shapes (nSets/nIn equal to, dividing, coprime with N) x T in {0,1,7,40} '
-                     '(plus a many-cells stream N in %s on %d cheap models, footprints recorded up to N=%d) every case (N <= 300) re-run with inputs / states / outputs / parameters handed over as VIEWS of larger sentinel-filled tables (two adjacent offset blocks run one after the other, strided rows with a spare column, time window, stepped time axis, parameter sub-matrix; Go- and C-backed): same results, parents untouched outside the views; plus parameter-position streams (tables with a repeated breakpoint and inputs / states exactly on table points for the dimensioned models; every scalar parameter at exactly its range ends, exactly 0, its default, inside; a low-frequency out-of-range stream x100 / negated with nSets, nIn in {1,N}; mostly shared parameter sets / input blocks) x exact / padded outputs (canaries) x padded state columns x Go-/C-backed arrays; per case: vectorised run vs N '
+                     '(plus a many-cells stream N in %s on %d cheap models, footprints recorded up to N=%d) every case (N <= 300) re-run with inputs / states / outputs / parameters handed over as VIEWS of larger sentinel-filled tables (two adjacent offset blocks run one after the other, strided rows with a spare column, time window, stepped time axis, parameter sub-matrix; Go- and C-backed): same results, parents untouched outside the views; plus PARAMSEQ: one long-lived model object gets parameters applied repeatedly (same / different number of sets, other dimension values, each cell alone with its column) and edited in place (with and without re-applying), every Run bit-identical to a fresh object given the current parameters; plus parameter-position streams (tables with a repeated breakpoint and inputs / states exactly on table points for the dimensioned models; every scalar parameter at exactly its range ends, exactly 0, its default, inside; a low-frequency out-of-range stream x100 / negated with nSets, nIn in {1,N}; mostly shared parameter sets / input blocks) x exact / padded outputs (canaries) x padded state columns x Go-/C-backed arrays; per case: vectorised run vs N '
                      'single-cell runs (two parameter packings) bit-for-bit, inputs/parameters bit-identical AND array descriptors (Shape, NDims, Len per axis of inputs, parameters, states, outputs) identical after every vectorised, single-cell and recorded Run; in every third case (and all many-cells cases) Run is called again on the same input/parameter objects (and with a second model instance) and must reproduce the first call bit for bit; recorded per-goroutine access '
                      'sets vs extracted Coq footprint; non-trivial = more than one cell; plus InitialiseStates(n) vs single-cell '
                      'InitialiseStates(1) (homogeneous: must agree; heterogeneous GR4J/Lag: known finding)' % (len(SHAPES), MANY_N if quick else MANY_N + [511, 1000], len(MANY_MODELS), 129 if quick else 257))
     c.finish(extra_cov={'models': len(models), 'case_classes_hit': len(classes), 'recorded_footprint_cases': n_rec,
                         'c_backed_cases': n_c, 'many_cells_cases': len(many), 'cases_also_run_on_views_of_larger_tables': n_views, 'view_variants': view_variants,
-                        'values_placed_exactly_on_table_points': n_on_table, 'long_lived_model_initseq_cases': len(seq_lines), 'parameter_position_cases': len(special), 'skipped_kernel_rejects_draw': n_skipped, 'skipped_out_of_range_case_over_deadline': n_timeout,
+                        'values_placed_exactly_on_table_points': n_on_table, 'long_lived_model_initseq_cases': len(seq_lines), 'long_lived_model_paramseq_cases': len(pseq_lines), 'paramseq_runs_compared_with_fresh_objects': pseq_steps, 'parameter_position_cases': len(special), 'skipped_kernel_rejects_draw': n_skipped, 'skipped_out_of_range_case_over_deadline': n_timeout,
                         'parameter_positions_drawn': positions_summary(pos_table), 'cases_with_repeated_run_on_same_objects': n_second, 'largest_cell_count': max_n,
                         'max_cells_handled_by_one_goroutine': max_cpg, 'heterogeneous_init_failures': n_het_fail, 'exhaustive': False, 'coqchk': chk},
              assumptions=['array library addresses the row-major offsets its arguments denote (C01/C02; the recorder measures element addresses through the public API and validates every logged value)',
